@@ -124,10 +124,12 @@ var atoms = []atom{
 	{"LA", true, false, false}, {"dep.T", true, false, false}, {"dep2.T", true, false, false}, {"io.Reader", true, false, false}, {"context.Context", true, false, false},
 	{"time.Duration", true, false, false}, {"http.Header", false, false, false}, {"nhttp.X", true, false, false}, {"mockp.M", true, false, false}, {"syncp.S", true, false, false},
 	{"fmtp.F", true, false, false}, {"T", false, true, false}, {"lt", true, false, true}, {"dep.IG[LT]", true, false, false},
+	// a generic type of the source package instantiated with a type of another package
+	{"LG[dep.T]", true, false, false}, {"LG[time.Duration]", true, false, false},
 }
 
 var rareAtoms = map[string]bool{"bool": true, "byte": true, "dep2.T": true, "nhttp.X": true, "mockp.M": true, "syncp.S": true, "fmtp.F": true, "lt": true,
-	"time.Duration": true, "context.Context": true, "dep.IG[LT]": true}
+	"time.Duration": true, "context.Context": true, "dep.IG[LT]": true, "LG[time.Duration]": true}
 
 // representative atoms for deeper nesting (one per import class)
 var deepAtoms = []atom{{"int", true, false, false}, {"dep.T", true, false, false}, {"LT", true, false, false}, {"io.Reader", true, false, false}, {"T", false, true, false}, {"dep2.T", true, false, false}}
